@@ -11,6 +11,9 @@ def dispatch(prop, tier):
     if prop in ("C05", "C06", "C07", "C19"):
         from . import check_store
         return check_store.run(prop, tier)
+    if prop == "C08":
+        from . import check_faults
+        return check_faults.run(prop, tier)
     if prop == "C09":
         from . import check_threads
         return check_threads.run(prop, tier)
